@@ -67,9 +67,16 @@ CLAIMS = {
          "malformed shapes/lengths; full-precision float matrices n<=6, entropy and influence against an independent numpy oracle at 1e-9. "
          "Not covered: floating-point rounding, np.abs, log2 and the 1e-12 cut-off of the entropy.",
          "Lean proof (loop invariant -> recursive per-qubit transform -> trace formula -> Pauli completeness, all n) + exact differential correspondence on dyadic inputs + numpy oracle"),
+ "C03": ("other", "6.C03", "Proved in Lean for ALL n: the model classifier depends only on the SET of members (classify_perm, classify_dup: reorder / duplicate invariance of "
+         "get_subgraphs and of the whole classification); at specification level the commutator closure is carried isomorphically by every additive, form-preserving, "
+         "injective map (qubit permutations, independent X/Y/Z relabellings per qubit, appended identity qubits) and is unchanged by contraction with / addition of a "
+         "product of anticommuting generators; hence any C03 failure is a C01 failure on one side. Classifier invariance where the closure cannot be enumerated is "
+         "decided metamorphically on the implementation (7 transformations, n=2..6 with the verified closure attributing the side, n=8..16/24), repeated calls and a "
+         "PYTHONHASHSEED sweep in fresh subprocesses.",
+         "Lean proofs (permutation/duplication invariance of the model classifier; closure invariance under form maps) + metamorphic differential checks + hash-seed sweep"),
 }
 PENDING = {}
-ACTIVE = ["C04", "C18", "C17", "C14", "C01", "C02", "C08", "C09", "C10", "C15", "C12", "C13"]
+ACTIVE = ["C04", "C18", "C17", "C14", "C01", "C02", "C08", "C09", "C10", "C15", "C12", "C13", "C03"]
 def main():
     props = [json.loads(l) for l in open(os.path.join(V, "properties.jsonl"))]
     checks, na = [], []
